@@ -18,7 +18,7 @@ grep -rl '/repo' --include=*.py --include=*.toml --include=check --include=*.sh 
 sed -i "s#\"/verif/evidence#\"$BASE/verif/evidence#g" check 2>/dev/null
 rm -f coq/Makefile coq/Makefile.conf; ( cd coq && coq_makefile -f _CoqProject -o Makefile >/dev/null 2>&1 )
 for id in "$@"; do
-  timeout 3000 ./check $id > $BASE/result-$id.txt 2>&1
-  echo "$id rc=$? $(grep -E '^VIOLATION|quick:' $BASE/result-$id.txt | tr '\n' ' ')"
+  timeout ${CHECK_TIMEOUT:-3000} ./check $id ${TIER:+--tier $TIER} > $BASE/result-$id.txt 2>&1
+  echo "$id rc=$? $(grep -E '^VIOLATION|quick:|thorough:' $BASE/result-$id.txt | tr '\n' ' ')"
 done
 git -C /repo worktree remove --force $BASE/repo 2>/dev/null
